@@ -422,18 +422,20 @@ def run(ck: Check):
         plan = [("MC_ExprEval_exh_q.cfg", None, ent_all, 6),
                 ("MC_ExprEval_rand.cfg", ck.seed, ent_all, 1)]
     items = []
-    with ThreadPoolExecutor(4) as tp, ProcessPoolExecutor(ncpu, initializer=_init_worker) as pool:
+    with ThreadPoolExecutor(6) as tp, ProcessPoolExecutor(ncpu, initializer=_init_worker) as pool:
         # role A runs and the generators run side by side (each TLC run is small; JVM start-up
         # dominates); accounting happens here, in the main thread
-        fut_a = [(cfg, tp.submit(tlc_job, cfg, workers=w)) for cfg, w in plan_a]
-        fut_neg = tp.submit(tlc_job, "MC_ExprEval_roleA_neg.cfg", workers=1)
+        # (the random generators, the slowest jobs, are started first; role A last, its
+        # results are only needed at the end)
         fut_g = []
-        for cfg, seed, entries, every in plan:
+        for cfg, seed, entries, every in sorted(plan, key=lambda p: p[1] is None):
             kw = {"coverage": False, "workers": 4}
             if seed is not None:
                 kw.update(seed=seed, workers=1, simulate="num=1", depth=200000)
             fut_g.append((cfg, seed, entries, every, tp.submit(tlc_job, cfg, **kw)))
-        for cfg, seed, entries, every, fut in fut_g:
+        fut_a = [(cfg, tp.submit(tlc_job, cfg, workers=w)) for cfg, w in plan_a]
+        fut_neg = tp.submit(tlc_job, "MC_ExprEval_roleA_neg.cfg", workers=1)
+        for cfg, seed, entries, every, fut in sorted(fut_g, key=lambda f: f[1] is not None):
             res = fut.result()
             _account(ck, "MC_ExprEval", res)
             if not res.ok:
